@@ -15,8 +15,16 @@ Pipeline (DESIGN.md 7/C20):
      MultiPathManager with a gated PathFetcher: observation conformance at every quiescent point
      (DRIFT if different) + P-monitors on the real outputs (VIOLATION).  The hook events of the
      replays are validated by Trace_PathSync as well (binding self-check).
+  2b. GenFine_PathSync (TLC -simulate) prints random behaviours at the grain of the I-spec's steps;
+     the harness parks every task of a multi-thread runtime at the hook's yield points (= the step
+     boundaries) and releases one task per step, so the real code runs exactly the interleaving
+     TLC chose (including "waiter parked between registration and await while the lookup finishes").
   3. Randomised scenarios on a 4-thread runtime with seeded yield/delay points: direct liveness
      monitor + Trace_PathSync validation of every run.
+  4. Storm: tens of thousands of fresh pairs; five tasks on a 6-thread runtime keep issuing path()
+     callers while the pair's lookup completes at a random moment (maximal contention on the sync
+     lock at the completion); every caller must resolve within 10 s of process progress (heartbeat)
+     after the completion; a sample of the pairs is traced and validated by Trace_PathSync.
 
 Readings adopted (the less demanding ones, DESIGN.md S3):
   * "released": the caller's future resolves (path, error, or `None` for cached_path) within 5 s
@@ -94,6 +102,16 @@ def gen_cfg(c, name, maxev, wait=(), cached=(), handle=(), key2=(), nw=2, keys="
                         key2=S(key2), nw=nw, keys=keys, maxfetch=maxfetch, cancel=S(cancel),
                         atomic="TRUE", ensure="TRUE", exitn="TRUE", coop="TRUE", reclaim="FALSE", used="FALSE",
                         extra="  MaxEv = %d" % maxev, invs=SAFETY + " Emit", props="")
+    p = os.path.join(c.work, name)
+    open(p, "w").write(t)
+    return p
+
+
+def fine_cfg(c, name, maxev, mindrop, wait=(), cached=(), handle=(), key2=(), nw=2, keys="{1}", cancel=()):
+    t = CFG_TMPL.format(spec="FineSpec", view="", wait=S(wait), cached=S(cached), handle=S(handle),
+                        key2=S(key2), nw=nw, keys=keys, maxfetch=1, cancel=S(cancel),
+                        atomic="TRUE", ensure="TRUE", exitn="TRUE", coop="FALSE", reclaim="FALSE", used="FALSE",
+                        extra="  MaxEv = %d\n  MinDrop = %d" % (maxev, mindrop), invs=SAFETY + " FEmit", props="")
     p = os.path.join(c.work, name)
     open(p, "w").write(t)
     return p
@@ -199,8 +217,8 @@ def replay_stored(c, binp):
     if "schedule" in rep:
         inp = os.path.join(c.work, "one_in.ndjson")
         outp = os.path.join(c.work, "one_out.ndjson")
-        write_ndjson(inp, [{"ev": "meta"}, dict(rep["schedule"], id=0, callers=rep["callers"])])
-        rc, so = c.sh([binp, "replay", inp, outp], timeout=600)
+        write_ndjson(inp, [{"ev": "meta"}, dict(rep["schedule"], id=0, callers=rep["callers"], alts=rep.get("alts", []))])
+        rc, so = c.sh([binp, "fine" if rep.get("fine") else "replay", inp, outp], timeout=600)
         res = read_ndjson(outp)[0]
         spec = [s["pre"] for s in rep["schedule"]["h"]] + [rep["schedule"]["final"]]
         for i, (a, b) in enumerate(zip(spec, res.get("obs", []))):
@@ -208,6 +226,15 @@ def replay_stored(c, binp):
             print("%s step %d before %-8s spec %s" % ("  " if a == b else "!!", i, ev["a"], json.dumps(a)))
             if a != b:
                 print("   %s real %s" % (" " * 22, json.dumps(b)))
+        for pv in res["pv"]:
+            c.violation(pv["key"], pv["what"] + " [stored replay]", rep)
+    elif rep.get("storm"):
+        ev = os.path.join(c.work, "one_storm.ndjson")
+        resj = os.path.join(c.work, "one_storm.json")
+        rc, so = c.sh([binp, "storm", ev, resj], timeout=3000, env={"VERIF_STORM_PAIRS": 200000, "VERIF_STORM_BUDGET_S": 300})
+        res = json.load(open(resj))
+        print("storm re-run (real schedules are not reproducible; same seed, up to 200000 pairs): %d pairs, %d callers, %d violation(s)"
+              % (res["pairs"], res["callers"], len(res["pv"])))
         for pv in res["pv"]:
             c.violation(pv["key"], pv["what"] + " [stored replay]", rep)
     elif "pv" in rep and rep["pv"].get("seed") is not None:
@@ -291,11 +318,12 @@ def run(c):
         "TLC 1.8.0 / 2026.09, CommunityModules Json/IOUtils",
     ]
     c.cov["rule"] = ("replayed schedule non-trivial = a caller is pending while another external event (arrival, answer, stop, drop, "
-                     "cancel, idle expiry) happens; recorded run non-trivial = at least one caller was woken by a notification or a "
-                     "pair was stopped/dropped while callers were in flight")
+                     "cancel, idle expiry) happens; fine schedule = every one (>= 5 director steps); recorded run non-trivial = at least one "
+                     "caller was woken by a notification or a pair was stopped/dropped while callers were in flight; storm: one per fresh pair "
+                     "(callers of several threads in flight while the lookup completes)")
 
-    # development aid: VERIF_C20_STAGES=mc,mut,gen,rec restricts the stages (default: all)
-    stages = set((os.environ.get("VERIF_C20_STAGES") or "mc,mut,gen,rec").split(","))
+    # development aid: VERIF_C20_STAGES=mc,mut,gen,fine,rec,storm restricts the stages (default: all)
+    stages = set((os.environ.get("VERIF_C20_STAGES") or "mc,mut,gen,fine,rec,storm").split(","))
 
     # ---- 1. exhaustive runs -------------------------------------------------------------------
     # distinct states (measured): wake 182 458; drop 171 500; dropfull 1 319 018; refetch 1 069 399;
@@ -429,6 +457,63 @@ def run(c):
     if total_replayed and conform * 10 < total_replayed * 5:
         c.drift("fewer than half of the replayed schedules conform (%d of %d): the I-spec and the code disagree systematically" % (conform, total_replayed))
 
+    # ---- 2b. fine-grained schedules (TLC -simulate) -> gated replay on a multi-thread runtime -----
+    fines = [("f1", 300 if not thorough else 2500, 150 if not thorough else 1500,
+              dict(wait=["c1", "c2"], handle=["c3"], cancel=["c2"], nw=2)),
+             ("f2", 160 if not thorough else 1500, 80 if not thorough else 800,
+              dict(wait=["c1", "c2"], key2=["c2"], cached=["c3"], nw=2, keys="{1, 2}"))]
+    fine_replayed = fine_conform = 0
+    fjobs = []
+    for fname, nwalks, nsample, k in fines:
+        if "fine" not in stages:
+            break
+        r = c.tlc(SD, "GenFine_PathSync", cfg=fine_cfg(c, "fine_%s.cfg" % fname, 40, 5, **k), mode="simulate",
+                  simulate="num=%d" % (nwalks // 2), depth=90, workers=2, timeout=3000, coverage=False)
+        rows = c.printed_json(r, "REPLAY")
+        if not rows:
+            c.fail_tool("fine generation run %s printed no schedules" % fname)
+        for inv in r.violated:
+            c.violation("spec:%s" % inv, "design-level: %s violated on GenFine_PathSync (%s)" % (inv, fname), {"tlc_out": r.out_path})
+        groups = collections.OrderedDict()
+        for row in rows:
+            groups.setdefault(sched_key(row), []).append(row)
+        keys = sorted(groups)
+        rnd.shuffle(keys)
+        sel = keys[:nsample]
+        meta = {c_: {"kind": ("wait" if c_ in k.get("wait", ()) else "cached" if c_ in k.get("cached", ()) else "handle"),
+                     "k": 2 if c_ in k.get("key2", ()) else 1}
+                for c_ in list(k.get("wait", ())) + list(k.get("cached", ())) + list(k.get("handle", ()))}
+        inp = os.path.join(c.work, "fine_in_%s.ndjson" % fname)
+        outp = os.path.join(c.work, "fine_out_%s.ndjson" % fname)
+        write_ndjson(inp, [{"ev": "meta", "gen": fname}] + [dict(groups[kk][0], id=i, callers=meta, alts=groups[kk][1:]) for i, kk in enumerate(sel)])
+        fjobs.append((fname, groups, sel, meta, inp, outp))
+    for fname, groups, sel, meta, inp, outp in fjobs:
+        rc, so = c.sh([binp, "fine", inp, outp], timeout=3000)
+        if rc != 0:
+            c.fail_tool("fine replay harness failed rc=%s %s" % (rc, (so or "")[-500:]))
+        outs = read_ndjson(outp)
+        bad = []
+        for i, (kk, res) in enumerate(zip(sel, outs)):
+            if res.get("skipped"):
+                continue
+            fine_replayed += 1
+            nontriv.add(fname + ":" + kk)
+            if res["conf"]:
+                fine_conform += 1
+            else:
+                bad.append(i)
+                c.drift("fine replay %s [%s]: observations differ from the spec's: %s" % (fname, short_key(groups[kk][0]), json.dumps(res.get("mis"))[:400]))
+            for pv in res["pv"]:
+                c.violation(pv["key"], pv["what"] + " [fine replay %s: %s]" % (fname, short_key(groups[kk][0])),
+                            {"gen": fname, "fine": True, "schedule": groups[kk][0], "alts": groups[kk][1:], "callers": meta, "real": res})
+        c.sample({"fine_schedule": short_key(groups[sel[len(sel) // 2]][0]), "gen": fname, "distinct_schedules_generated": len(groups)})
+        ran = [res for res in outs if not res.get("skipped")]
+        replay_traces.append(("fine_" + fname, outp + ".trace.ndjson", [i for i, res in enumerate(ran) if not res["conf"]]))
+    c.cov["replayed"] = total_replayed + fine_replayed
+    c.cov["fine_replayed"] = fine_replayed
+    c.cov["fine_conform"] = fine_conform
+    total_replayed += fine_replayed
+
     traces = 0
     for gname, tp, inconcl in replay_traces:
         # runs in which a timer of the code disturbed the schedule are not behaviours of the
@@ -460,6 +545,30 @@ def run(c):
         c.cov["distinct_nontrivial"] += res["nontrivial_runs"]
         acc, rej = validate_trace(c, ev, "rec%d" % sh, max_skip=6)
         traces += acc
+    # ---- 4. storm: thousands of fresh pairs, callers issued from several threads while the pair's
+    #         lookup completes; direct liveness monitor; a sample of the pairs is traced -----------
+    if "storm" in stages:
+        pairs = int(os.environ.get("VERIF_C20_STORM_PAIRS", 60000 if not thorough else 600000))
+        ev = os.path.join(c.work, "storm.ndjson")
+        resj = os.path.join(c.work, "storm.json")
+        rc, so = c.sh([binp, "storm", ev, resj], timeout=3000,
+                      env={"VERIF_STORM_PAIRS": pairs, "VERIF_STORM_SAMPLE_EVERY": 200 if not thorough else 600,
+                           "VERIF_STORM_BUDGET_S": 75 if not thorough else 600})
+        if rc != 0:
+            c.fail_tool("storm harness failed rc=%s %s" % (rc, (so or "")[-500:]))
+        res = json.load(open(resj))
+        for pv in res["pv"]:
+            c.violation(pv["key"], pv["what"], {"storm": True, "seed": c.seed, "pair": pv.get("pair"), "pv": pv})
+        if res["pairs"] < 100 or res["callers"] < res["pairs"]:
+            c.fail_tool("vacuous storm: %d pairs, %d callers" % (res["pairs"], res["callers"]))
+        c.cov["storm"] = {k: res[k] for k in ("pairs", "planned_pairs", "callers", "never_released", "sampled", "traces", "res_path", "res_error", "wall_s")}
+        c.cov["evaluations"] += res["callers"]
+        c.cov["distinct_nontrivial"] += res["pairs"]
+        if res["traces"]:
+            acc, rej = validate_trace(c, ev, "storm", max_skip=6)
+            traces += acc
+        c.sample({"storm": "%d fresh pairs, %d callers issued from 5 tasks on a 6-thread runtime while the pair's lookup completes" % (res["pairs"], res["callers"])})
+
     c.cov["record_stats"] = dict(agg)
     # vacuity control: classes decided by the scenario generator must have occurred (tool error
     # otherwise); classes decided by the code under test are only reported
